@@ -127,7 +127,9 @@ func (w *World) litForms(fn *ssa.Function) []*EncForm {
 		}
 		n := int(arr.Len())
 		stores := make([][]*ssa.Store, n)
-		for _, ref := range *al.Referrers() {
+		refs := append([]ssa.Instruction{}, *al.Referrers()...)
+		refs = append(refs, *sl.Referrers()...) // element stores through the slice (make + b[i] = x)
+		for _, ref := range refs {
 			ia, ok := ref.(*ssa.IndexAddr)
 			if !ok {
 				continue
@@ -299,7 +301,17 @@ func (f *Flow) octetWindow(v ssa.Value) (*Term, int, bool) {
 	}
 	if t.K == TBin && t.Op == token.SHR && t.B.K == TConst && t.B.C.IsInt64() {
 		base := t.A
-		return base, int(t.B.C.Int64()), true
+		sh := int(t.B.C.Int64())
+		// byte(T(x) >> s) carries bits s..s+7 of x as long as the window lies
+		// inside T: strip such conversions so that all octets name one base
+		for base.K == TConv {
+			bits, _, ok := intTypeInfo(f.w, base.T)
+			if _, _, isInt := intTypeInfo(f.w, base.A.T); !ok || !isInt || uint(sh+8) > bits {
+				break
+			}
+			base = base.A
+		}
+		return base, sh, true
 	}
 	return t, 0, true
 }
